@@ -213,11 +213,9 @@ theorem identifyMag_ok {ops : List MOpQ} {eps : Rat} {g : MagSpaceGroup} (h : id
           subst h
           obtain ⟨u, hu, htry⟩ := List.exists_of_findSome?_eq_some hr
           have hn : ∀ h dbOps gens, range.head?.bind refHall? = some h → dbRef? h = some (dbOps, gens) →
-              (Thunk.mk fun _ => match (range.head?.bind refHall?).bind dbRef? with
-                | none => some []
-                | some (dbOps, gens) => normalizerAll dbOps gens eps).get = normalizerAll dbOps gens eps := by
+              (sharedNormalizer (range.head?.bind refHall?) eps).get = normalizerAll dbOps gens eps := by
             intro h dbOps gens hh hdb
-            simp only [Thunk.get, hh, Option.bind_some, hdb]
+            simp only [sharedNormalizer, Thunk.get, hh, Option.bind_some, hdb]
           obtain ⟨e1, e2, e3, e4, e5, e6⟩ := tryUni_ok hn hc4 htry
           subst e1
           refine ⟨ref, sg, range, ?_, hsg, hrange, hu, ?_, ?_, ?_, ?_⟩
@@ -227,5 +225,56 @@ theorem identifyMag_ok {ops : List MOpQ} {eps : Rat} {g : MagSpaceGroup} (h : id
           · rw [e2]; exact e5
           · rw [e2]; exact e6
         · simp at h
+
+/-! ### table checkers and the loop over a UNI range (used by `Props/C12Stages.lean`) -/
+
+/-- Row checker of `uni_range_table`: every ITA number `1..230` has a UNI range, every UNI number
+of the range has a type entry, and the range contains an entry of construct type I and one of type II. -/
+def rangeOK (n : Nat) : Bool :=
+  match uniRange? n with
+  | none => false
+  | some range =>
+    range.all (fun u => (magType? u).isSome) &&
+    range.any (fun u => (magType? u).any fun t => t.constructType == 1) &&
+    range.any (fun u => (magType? u).any fun t => t.constructType == 2)
+
+
+/-- First success of the loop over a UNI range for construct types I / II. -/
+theorem findSome_type12 (ops : List MOpQ) (eps : Rat) (c : Nat) (hc : c = 1 ∨ c = 2) (stdT : UTrans) (h0 : Option Nat)
+    (norm0 : Thunk (Option (List UTrans))) : ∀ (l : List Nat),
+    (∀ u ∈ l, (magType? u).isSome = true) → (l.any fun u => (magType? u).any fun t => t.constructType == c) = true →
+    ∃ u ∈ l, l.findSome? (tryUni ops eps c stdT h0 norm0) = some (.ok ⟨u, c, stdT⟩)
+  | [], _, hany => by simp at hany
+  | u :: l, hall, hany => by
+    obtain ⟨t, ht⟩ := Option.isSome_iff_exists.mp (hall u List.mem_cons_self)
+    by_cases hct : t.constructType = c
+    · refine ⟨u, List.mem_cons_self, ?_⟩
+      have : tryUni ops eps c stdT h0 norm0 u = some (.ok ⟨u, c, stdT⟩) := by
+        unfold tryUni
+        simp only [ht, hct, ne_eq, not_true_eq_false, if_false]
+        rw [if_pos hc]
+      rw [List.findSome?_cons, this]
+    · have hnone : tryUni ops eps c stdT h0 norm0 u = none := by
+        unfold tryUni
+        simp only [ht, ne_eq, hct, not_false_eq_true, if_true]
+      have hany' : (l.any fun u => (magType? u).any fun t => t.constructType == c) = true := by
+        simp only [List.any_cons, Bool.or_eq_true] at hany
+        rcases hany with h | h
+        · simp [ht, hct] at h
+        · exact h
+      obtain ⟨u', hu', hf⟩ := findSome_type12 ops eps c hc stdT h0 norm0 l
+        (fun v hv => hall v (List.mem_cons_of_mem _ hv)) hany'
+      exact ⟨u', List.mem_cons_of_mem _ hu', by rw [List.findSome?_cons, hnone]; exact hf⟩
+
+/-- Tabulated primitive magnetic operations of UNI number `u` (empty when `u` is not in the table). -/
+def tableMagOps (u : Nat) : List MOpQ := (dbMagOps? u).getD []
+
+def tableEps : Rat := 1 / 100000000
+
+/-- The row checker the compiled model evaluates on every table row of every run (`row 1`). -/
+def tableRowOK (u : Nat) : Bool :=
+  match identifyMag (tableMagOps u) tableEps with
+  | .ok g => g.uni == u && soundAnswer (tableMagOps u) tableEps g
+  | .error _ => false
 
 end Moyo.S5m
